@@ -150,6 +150,55 @@ theorem round_answered_when_ack_handled (hd : DistinctAddrs ids) (m : Member) (N
 
 end
 
+/-! ### the round starts with a Ping -/
+
+/-- **A probe round pings its target.** The delivery of a current probe timer to a connected instance that
+    returned `Ok`: either no round was started (nobody to ping: the probe is what `take_failed` left), or the probe
+    is now on `member` under the next number, and the call's last three effects are the Ping — a datagram to
+    `member` that begins with the encoded header `Ping number` from the instance's identity and incarnation —, the
+    indirect-probe timer of the round and the re-armed probe timer. Any state, any RNG draws. -/
+theorem probe_timer_pings_its_target (E : Env) (s s' : State) (tok : Nat) (orc left : Oracle) (eff : List Effect)
+    (hstep : Foca.step E s (.timer (.probe tok)) orc = .done s' eff .ok left)
+    (htok : tok = s.token) (hconn : s.conn = .connected) :
+    s'.probe = s.probe.takeFailed.2 ∨
+    ∃ member pre body, s'.probe = s.probe.takeFailed.2.start member ∧
+      eff = pre ++ [.send member.id (E.codec.encHeader ⟨s'.id, s'.inc, member.id, .ping s'.probe.number⟩ ++ body),
+        .timer s'.cfg.probeRtt (.indirect member.id s'.token), .timer s'.cfg.probePeriod (.probe s'.token)] := by
+  unfold Foca.step Foca.runOp at hstep
+  simp only [bind_run] at hstep
+  cases hr : Foca.handleTimer E (.probe tok) ⟨s, [], orc⟩ with
+  | stuck x => rw [hr] at hstep; simp at hstep
+  | err e c => rw [hr] at hstep; simp at hstep
+  | ok u c' =>
+    rw [hr] at hstep
+    simp only [pure_run, StepOut.done.injEq] at hstep
+    obtain ⟨hs', heff, _, _⟩ := hstep
+    unfold Foca.handleTimer at hr
+    simp only [bind_run, getS_run] at hr
+    have h1 : (tok == s.token) = true := by simp [htok]
+    have h2 : (s.conn != Conn.connected) = false := by simp [hconn]
+    simp only [h1, h2, ↓reduceIte, Bool.false_eq_true] at hr
+    obtain ⟨_, c1, c2, hsf, hsn, hc'⟩ := probeRandomMember_ok E ⟨s, [], orc⟩ c' hconn hr
+    have hshape := probeSuspectFailed_shape E ⟨s, [], orc⟩
+    rw [hsf] at hshape
+    simp only [SuspectShape] at hshape
+    obtain ⟨_, _, hprobe1, _⟩ := hshape
+    rcases probeStartNext_ok E c1 c2 hsn with ⟨hp, _⟩ | ⟨member, body, hp, he⟩
+    · left
+      rw [← hs', hc']
+      simp only
+      rw [hp, hprobe1]
+    · right
+      refine ⟨member, c1.eff, body, ?_, ?_⟩
+      · rw [← hs', hc']
+        simp only
+        rw [hp, hprobe1]
+      · rw [← heff, ← hs', hc']
+        simp only
+        rw [he]
+        simp
+
+
 /-! ### the two instances together -/
 
 section
@@ -221,6 +270,66 @@ theorem probe_round_trip (hl : CodecLaws E.codec) (hhdr : HeaderLaw E.codec) (hd
       shape_dataOk E hl hhdr (fun u hu => (mwire_iff u).1 hu.1.1) hshape hw hcalmH
     exact round_answered_when_ack_handled E τ ids hd m N hstart hconn0 hrun1 hnp1 ha1 hdatA hstepA _ resta hda
       hsrcp rfl hbid hrun2 hnp2
+
+end
+
+/-! ### "an instance that is not defunct answers Ping": the premise `connected afterwards`, discharged -/
+
+section
+variable (E : Env) (τ : Id → Nat) (ids : List Id)
+
+/-- **A calm receiver that is not defunct ends up connected.** Exact member bookkeeping (`MsInv`: true of every
+    reachable state, `C08H.num_members_exact_always`), calm, not defunct: after successfully handling a calm datagram
+    addressed to it the instance is connected — it lists the sender as active. -/
+theorem calm_receiver_ends_up_connected (hd : DistinctAddrs ids) {s s' : State} {data : Bytes}
+    {orc left : Oracle} {eff : List Effect} (hs : CalmInv E τ ids s) (hms : MsInv s) (hnu : s.conn ≠ .undead)
+    (hdat : DataOk E (CalmM τ ids) (CalmH τ ids) data)
+    (hstep : Foca.step E s (.data data) orc = .done s' eff .ok left)
+    (h : Header) (rest : Bytes) (hdec : E.codec.decHeader data = some (h, rest)) (hdst : h.dst = s.id) :
+    s'.conn = .connected := by
+  have hrun := step_data_ok E hstep
+  have hc0 : CalmSent E τ ids (fun _ => True) (Ctx.mk s [] orc).s (Ctx.mk s [] orc).eff :=
+    ⟨hs, by intro e he; simp at he⟩
+  exact calm_receiver_connected E τ ids (fun _ => True) hd data _ _ hc0 hms hnu hdat hrun h rest hdec hdst
+
+/-- **An instance that is not defunct answers Ping with an Ack of the same number** — the clause of C12, for the
+    fault-free setting, as a statement about the datagram: `probed_instance_answers` with "connected afterwards"
+    replaced by "not defunct before". -/
+theorem not_defunct_instance_answers_ping (hhdr : HeaderLaw E.codec) (hd : DistinctAddrs ids) {s s' : State}
+    {data : Bytes} {orc left : Oracle} {eff : List Effect} (hs : CalmInv E τ ids s) (hms : MsInv s)
+    (hnu : s.conn ≠ .undead) (hdat : DataOk E (CalmM τ ids) (CalmH τ ids) data)
+    (hstep : Foca.step E s (.data data) orc = .done s' eff .ok left)
+    (h : Header) (rest : Bytes) (hdec : E.codec.decHeader data = some (h, rest)) (hdst : h.dst = s.id)
+    (n : Nat) (hmsg : h.msg = .ping n) :
+    ∃ pre bytes, eff = pre ++ [.send h.src bytes] ∧ bytes.length ≤ s'.cfg.mps ∧
+      (E.codec.decHeader bytes).map (·.1) = some ⟨s'.id, s'.inc, h.src, .ack n⟩ :=
+  probed_instance_answers E τ ids hhdr hd hs hdat hstep h rest hdec hdst n hmsg
+    (calm_receiver_ends_up_connected E τ ids hd hs hms hnu hdat hstep h rest hdec hdst)
+
+/-- **The probe round trip**, with the probed instance merely not defunct (and reachable, hence `MsInv`): B handles
+    A's Ping with result `Ok`; A handles the very bytes B sent, with result `Ok`, before its next probe timer; then
+    that timer finds the round answered. The only premises left about foca's state are that A was connected when it
+    started the round and that both instances hold only Alive records (the fault-free setting). -/
+theorem probe_round_trip_not_defunct (hl : CodecLaws E.codec) (hhdr : HeaderLaw E.codec) (hd : DistinctAddrs ids)
+    (m : Member) (N : Nat)
+    {b b' : State} {ping : Bytes} {orcB leftB : Oracle} {effB : List Effect}
+    (hb : CalmInv E τ ids b) (hbreach : Reachable E b) (hbnu : b.conn ≠ .undead)
+    (hping : DataOk E (CalmM τ ids) (CalmH τ ids) ping)
+    (hstepB : Foca.step E b (.data ping) orcB = .done b' effB .ok leftB)
+    (hp : Header) (restp : Bytes) (hdecp : E.codec.decHeader ping = some (hp, restp)) (hdstp : hp.dst = b.id)
+    (hmsgp : hp.msg = .ping N) (hbid : b'.id = m.id)
+    {a0 a1 a2 a' : State} {ops1 ops2 : List Op}
+    (hstart : a0.probe.direct = some m ∧ a0.probe.number = N) (hconn0 : a0.conn = .connected)
+    (hsrcp : hp.src = a1.id)
+    (hrun1 : Hist E a0 ops1 a1) (hnp1 : ∀ op ∈ ops1, ∀ tok, op ≠ .timer (.probe tok))
+    (ha1 : CalmInv E τ ids a1) {ack : Bytes} {orcA leftA : Oracle} {effA : List Effect}
+    (hsent : ∃ pre, effB = pre ++ [.send hp.src ack]) (hτ : b'.inc ≤ τ b'.id)
+    (hstepA : Foca.step E a1 (.data ack) orcA = .done a2 effA .ok leftA)
+    (hrun2 : Hist E a2 ops2 a') (hnp2 : ∀ op ∈ ops2, ∀ tok, op ≠ .timer (.probe tok)) :
+    RoundAnswered a' :=
+  probe_round_trip E τ ids hl hhdr hd m N hb hping hstepB hp restp hdecp hdstp hmsgp hbid
+    (calm_receiver_ends_up_connected E τ ids hd hb (MsInv.reachable E hbreach) hbnu hping hstepB hp restp hdecp hdstp)
+    hstart hconn0 hsrcp hrun1 hnp1 ha1 hsent hτ hstepA hrun2 hnp2
 
 end
 
